@@ -297,8 +297,13 @@ func addLineText(p *lineParser) {
 		p.ContainerKind() == FencedCodeBlockKind ||
 		p.ContainerKind() == HTMLBlockKind ||
 		(p.ContainerKind() == ListItemKind && p.container.ChildCount() == 1 && p.container.Span().Start >= p.lineStart))
-	// Propagate lastLineBlank up through parents:
+	// Propagate lastLineBlank up through parents.
+	// A blank line inside a block quote starts with the quote's marker:
+	// it is not a blank line of the quote or of what encloses the quote.
 	for c := p.container; c != nil; c = findParent(&p.root, c) {
+		if c.Kind() == BlockQuoteKind {
+			lastLineBlank = false
+		}
 		c.lastLineBlank = lastLineBlank
 	}
 
